@@ -84,6 +84,8 @@ def operand(o):
             out += [NONE]
         else:
             out += ["x", t(ix.prefix), t(ix.name), t(ix.shift_op if ix.shift_op else None), _shiftval(ix.shift)]
+        if not isinstance(o.scale, int):
+            raise ValueError("non-integer scale")     # negative shift amount: outside the model
         out += [esc(str(o.scale))]
         out += ["1" if o.pre_indexed else "0"]
         po = o.post_indexed
@@ -110,7 +112,7 @@ def form(f):
         return out
     if f.directive is not None:
         ps = f.directive.parameters
-        return ["D", t(f.directive.name), str(len(ps))] + [t(x) for x in ps] + [t(f.comment)]
+        return ["D", t(f.directive.name), str(len(ps))] + [t(x) if isinstance(x, str) else esc("?") for x in ps] + [t(f.comment)]
     if f.label is not None:
         return ["L", t(f.label), t(f.comment)]
     if f.comment is not None:
@@ -124,9 +126,9 @@ def parse(parser, line, no=None):
         f = parser.parse_line(line, no)
     except ValueError:
         return "ERR"
-    except Exception as e:  # noqa
-        return "EXC " + esc(type(e).__name__)
+    except Exception:  # noqa  (any other exception type escaping parse_line)
+        return "EXC"
     try:
         return " ".join(form(f))
-    except Exception as e:  # noqa
-        return "EXC " + esc("canon:" + type(e).__name__)
+    except Exception:  # noqa
+        return "EXC"
